@@ -377,6 +377,9 @@ class BibliographyData(object):
             filename = file
         else:
             filename = getattr(file, 'name', None)
+            if not isinstance(filename, str):
+                # e.g. the descriptor number of tempfile.TemporaryFile(), or a bytes name
+                filename = None
         writer = find_plugin('pybtex.database.output', bib_format, filename=filename)(**kwargs)
         return writer.write_file(self, file)
 
@@ -1017,6 +1020,9 @@ def parse_file(file, bib_format=None, **kwargs):
         filename = file
     else:
         filename = getattr(file, 'name', None)
+        if not isinstance(filename, str):
+            # e.g. the descriptor number of tempfile.TemporaryFile(), or a bytes name
+            filename = None
 
     parser = find_plugin('pybtex.database.input', bib_format, filename=filename)(**kwargs)
     return parser.parse_file(file)
